@@ -120,7 +120,8 @@ pub fn execute_fsm_pipe(fsm_pipe: &FsmPipe, env: Option<&Environment>, p: &Inter
     call_env.insert(arg_decl.name.hash(), detached_arg);
   }
   let mut state = pattern_to_value(&fsm.start, &call_env, p)?;
-  validate_fsm_state_coverage(&fsm, fsm_pipe)?;
+  let spec = p.user_state_machine_specs.borrow().get(&fsm_id).cloned();
+  validate_fsm_state_coverage(&fsm, spec.as_ref(), fsm_pipe)?;
   execute_fsm_pipe_impl(&fsm, &mut state, &mut call_env, p)
 }
 
@@ -306,7 +307,7 @@ fn execute_fsm_pipe_impl(fsm: &FsmImplementation, state: &mut Value, call_env: &
   .with_compiler_loc())
 }
 
-fn validate_fsm_state_coverage(fsm: &FsmImplementation, fsm_pipe: &FsmPipe) -> MResult<()> {
+fn validate_fsm_state_coverage(fsm: &FsmImplementation, spec: Option<&FsmSpecification>, fsm_pipe: &FsmPipe) -> MResult<()> {
   let state_names: HashSet<String> = fsm
     .arms
     .iter()
@@ -320,6 +321,23 @@ fn validate_fsm_state_coverage(fsm: &FsmImplementation, fsm_pipe: &FsmPipe) -> M
     .collect();
   if state_names.is_empty() {
     return Ok(());
+  }
+  // Every state the specification declares must have an arm in the implementation.
+  if let Some(spec) = spec {
+    for declared in &spec.states {
+      let declared_name = declared.name.to_string();
+      if !state_names.contains(&declared_name) {
+        return Err(MechError::new(
+          FsmUndefinedStateError {
+            fsm_name: fsm.name.to_string(),
+            state_name: declared_name,
+          },
+          None,
+        )
+        .with_compiler_loc()
+        .with_tokens(fsm_pipe.start.tokens()));
+      }
+    }
   }
 
   let start_state = state_name_from_pattern(&fsm.start).ok_or_else(|| {
